@@ -244,6 +244,18 @@ APALACHE = {
 }
 
 # formulas of spec/Scn.tla that belong to each property (a PROPFAIL of one of them on a recorded trace is a violation of it)
+# thorough tier: the main scenario models once more at their quick depth with one more step of history in the view (one witness
+# per pair of consecutive steps instead of one per step): where the code keeps state the specification does not, every next step
+# is then tried after each of the calls that lead to the same specification state
+PAIRS_OF_STEPS = {'MC_LifeS', 'MC_LifeC', 'MC_CloseS', 'MC_MiscC', 'MC_MiscS', 'MC_SetS', 'MC_SetC', 'MC_PushC', 'MC_PushS', 'MC_FlowS',
+                  'MC_QuietS', 'MC_QuietC', 'MC_TableS', 'MC_UpgS', 'MC_UpgC'}
+for _pid, _sp in PROPS.items():
+    for _s in list(_sp['scenarios']):
+        if _s['module'] in PAIRS_OF_STEPS and 'quick' in _s['depth'] and not _s.get('view') and not _s.get('chunked') and not _s.get('hashseeds'):
+            _v = {k: v for k, v in _s.items() if k != 'depth'}
+            _v.update(depth={'thorough': _s['depth']['quick']}, view='GenView2')
+            _sp['scenarios'].append(_v)
+
 FORMULAS = {pid: sorted({i for sc_ in PROPS[pid]['scenarios'] for i in sc_.get('invariants', [])}) for pid in PROPS}
 FORMULAS['C10'] = FORMULAS['C10'] + ['P_C10_InboundWithinLocalLimit']
 
